@@ -11,7 +11,7 @@ echo "== demo WITH patch (expect non-zero)"; /venv/bin/python $dir/demo.py >/tmp
 echo "== test suite WITH patch"
 /venv/bin/python -m pytest -q -p no:cacheprovider --timeout=900 --continue-on-collection-errors > /tmp/vs_$id.suite.log 2>&1
 tail -1 /tmp/vs_$id.suite.log
-extra=$(grep -E "^(FAILED|ERROR)" /tmp/vs_$id.suite.log | grep -vE "$KNOWN" | sed 's/^[A-Z]* //; s/ - .*//')
+extra=$(grep -E "^(FAILED|ERROR) (tests|scripts)/" /tmp/vs_$id.suite.log | grep -vE "$KNOWN" | sed 's/^[A-Z]* //; s/ - .*//')
 for t in $extra; do
   echo "-- extra failure $t: re-running alone (3x) to tell a timing flake from a real failure"
   for i in 1 2 3; do /venv/bin/python -m pytest -q -p no:cacheprovider --timeout=900 "$t" 2>&1 | tail -1; done
